@@ -1343,18 +1343,21 @@ static void exec_copy_big(Ctx &c, const Op &op)
                     S.p()[i] = big_val(i, op.input_seed);
                 D.p()[i] = big_val(i, op.garbage_seed) ^ 0x5555555555555554ull;
             }
-        sim::OpSim cfg = ref_cfg();
-        cfg.force_single = false;
-        cfg.strategy = op.strategy;
-        cfg.sched_seed = op.sched_seed;
+        sim::OpSim cfg = sim_cfg_of(op); // members one after the other (plain flavour), in identity or seeded order; seeded shortfall
+        cfg.detect_races = false;
         sim::OpStats st = simulate(cfg, [&] {
             if (op.big_zero)
                 shim::parsetzero(D.p(), n, op.threads);
             else
                 shim::parcpy(D.p(), S.p(), n, op.threads);
         });
-        (void)st;
         r.regions += st.regions;
+        for (int T : st.teams)
+            r.max_team = std::max(r.max_team, T);
+        if (st.shortfall_fired)
+            r.faults["team_shortfall"] += st.shortfall_fired;
+        if (st.limit_capped)
+            r.faults["thread_limit_cap"] += st.limit_capped;
         uint64_t h = 0xcbf29ce484222325ULL;
         long bad = -1;
         uint64_t got = 0, want = 0;
